@@ -7,6 +7,7 @@ mod ingest;
 mod members;
 mod poolstress;
 mod sim;
+mod subrace;
 mod syncneeds;
 
 fn main() {
@@ -31,6 +32,7 @@ fn main() {
                 ingest::run_walk(p(2), p(3) as usize, p(4) as usize, p(5), p(6) as usize, &args[7]).await
             }
             "pool-stress" => poolstress::run(args[2].parse().unwrap(), args[3].parse().unwrap(), &args[4]).await,
+            "sub-race" => subrace::run(args[2].parse().unwrap(), args[3].parse().unwrap(), args[4] == "1", &args[5]).await,
             "sim-replay" => sim::run_replay(&args[2], &args[3]).await,
             "replay-members" => members::run(&args[2]),
             "replay-chunker" => chunker::run_chunker(&args[2]),
